@@ -1,7 +1,7 @@
 (* C04/Proofs.v — the lemmas behind the property theorems of C04/Properties.v
    (model of the repaired code: checked <success/> flush, ctx test after every negotiator
    call, Ready cleared on every error return, bind error reply returns the error). *)
-From XV Require Import lib.Bytes gen.NegTables C04.Model C04.Generic C04.Structure C04.Fuel.
+From XV Require Import lib.Bytes gen.NegTables gen.C04Facts C04.Model C04.Generic C04.Structure C04.Fuel.
 
 (* ------------------------------------------------------------------ bits *)
 
@@ -141,38 +141,38 @@ Proof.
   split; [eapply not_ok_failed; eassumption|]. eapply run_err_not_ready; eassumption.
 Qed.
 
-Lemma cut_agrees k c e d hs : agree_below k (mkPlan FNone c e d hs) (mkPlan (FCut k) c e d hs).
+Lemma cut_agrees k cl c e d x hs : agree_below k (mkPlan FNone cl c e d x hs) (mkPlan (FCut k) cl c e d x hs).
 Proof.
   split; [|split; [intros w0 _; reflexivity | reflexivity]]. intros i Hi. unfold p_fail. cbn [p_fault fault_fail].
   replace (k <=? i) with false by (symmetry; apply Nat.leb_gt; exact Hi). reflexivity.
 Qed.
 
-Lemma transient_agrees k c e d hs : agree_below k (mkPlan FNone c e d hs) (mkPlan (FTransient k) c e d hs).
+Lemma transient_agrees k cl c e d x hs : agree_below k (mkPlan FNone cl c e d x hs) (mkPlan (FTransient k) cl c e d x hs).
 Proof.
   split; [|split; [intros w0 _; reflexivity | reflexivity]]. intros i Hi. unfold p_fail. cbn [p_fault fault_fail].
   replace (i =? k) with false by (symmetry; apply Nat.eqb_neq; lia). reflexivity.
 Qed.
 
 Lemma cut_fails_closed :
-  forall cfg c e d hs bits clear tls calls k ru wu rc wc,
-    run cfg (mkPlan FNone c e d hs) bits clear tls calls = (ru, wu) ->
-    run cfg (mkPlan (FCut k) c e d hs) bits clear tls calls = (rc, wc) ->
+  forall cfg cl c e d x hs bits clear tls calls k ru wu rc wc,
+    run cfg (mkPlan FNone cl c e d x hs) bits clear tls calls = (ru, wu) ->
+    run cfg (mkPlan (FCut k) cl c e d x hs) bits clear tls calls = (rc, wc) ->
     k < w_ops wu ->
     failed rc /\ is_ready (w_bits wc) = false.
 Proof.
-  intros cfg c e d hs bits clear tls calls k ru wu rc wc Hu Hc Hk.
+  intros cfg cl c e d x hs bits clear tls calls k ru wu rc wc Hu Hc Hk.
   eapply fault_fails_closed; [apply cut_agrees | | exact Hu | exact Hc | exact Hk].
   unfold p_fail. cbn [p_fault fault_fail]. rewrite Nat.leb_refl. reflexivity.
 Qed.
 
 Lemma transient_fails_closed :
-  forall cfg c e d hs bits clear tls calls k ru wu rc wc,
-    run cfg (mkPlan FNone c e d hs) bits clear tls calls = (ru, wu) ->
-    run cfg (mkPlan (FTransient k) c e d hs) bits clear tls calls = (rc, wc) ->
+  forall cfg cl c e d x hs bits clear tls calls k ru wu rc wc,
+    run cfg (mkPlan FNone cl c e d x hs) bits clear tls calls = (ru, wu) ->
+    run cfg (mkPlan (FTransient k) cl c e d x hs) bits clear tls calls = (rc, wc) ->
     k < w_ops wu ->
     failed rc /\ is_ready (w_bits wc) = false.
 Proof.
-  intros cfg c e d hs bits clear tls calls k ru wu rc wc Hu Hc Hk.
+  intros cfg cl c e d x hs bits clear tls calls k ru wu rc wc Hu Hc Hk.
   eapply fault_fails_closed; [apply transient_agrees | | exact Hu | exact Hc | exact Hk].
   unfold p_fail. cbn [p_fault fault_fail]. rewrite Nat.eqb_refl. reflexivity.
 Qed.
@@ -206,18 +206,18 @@ Proof.
       subst w'. cbn [w_ops w_trace]. rewrite do_restart_ops, do_restart_trace. cbn. left. reflexivity.
 Qed.
 
-Lemma cancel_fails cfg f e d hs bits clear tls calls c ru wu rc wc :
-  run cfg (mkPlan f None e d hs) bits clear tls calls = (ru, wu) ->
+Lemma cancel_fails cfg f cl e d x hs bits clear tls calls c ru wu rc wc :
+  run cfg (mkPlan f cl None e d x hs) bits clear tls calls = (ru, wu) ->
   c < w_ops wu ->
-  run cfg (mkPlan f (Some c) e d hs) bits clear tls calls = (rc, wc) ->
+  run cfg (mkPlan f cl (Some c) e d x hs) bits clear tls calls = (rc, wc) ->
   failed rc /\ is_ready (w_bits wc) = false.
 Proof.
   intros Hu Hk Hc.
   assert (Hne : rc <> ROk tt).
   { intro E. subst rc. rewrite run_unfold in Hu, Hc. apply finish_ok in Hc.
-    destruct (@interp_cancel_ok unit (the_session cfg clear tls) (mkPlan f (Some c) e d hs) c eq_refl
+    destruct (@interp_cancel_ok unit (the_session cfg clear tls) (mkPlan f cl (Some c) e d x hs) c eq_refl
                 (session_strict _ _ _ _) _ _ _ Hc) as [H0 [new [Hn Hp]]].
-    change (uncancelled (mkPlan f (Some c) e d hs)) with (mkPlan f None e d hs) in H0.
+    change (uncancelled (mkPlan f cl (Some c) e d x hs)) with (mkPlan f cl None e d x hs) in H0.
     rewrite H0 in Hu. cbn in Hu. inversion Hu; subst wu.
     cbn [init_world w_trace] in Hn. rewrite app_nil_r in Hn.
     pose proof Hc as Hs. apply session_ok_ctx in Hs. destruct Hs as [[Hw _]|Hin].
@@ -227,10 +227,10 @@ Proof.
 Qed.
 
 (* the cancellation interrupts operation c on a transport with deadlines *)
-Lemma cancel_while_blocked_fails cfg f hs bits clear tls calls c ru wu rc wc :
-  run cfg (mkPlan f None true true hs) bits clear tls calls = (ru, wu) ->
+Lemma cancel_while_blocked_fails cfg f cl x hs bits clear tls calls c ru wu rc wc :
+  run cfg (mkPlan f cl None true true x hs) bits clear tls calls = (ru, wu) ->
   c < w_ops wu ->
-  run cfg (mkPlan f (Some c) true true hs) bits clear tls calls = (rc, wc) ->
+  run cfg (mkPlan f cl (Some c) true true x hs) bits clear tls calls = (rc, wc) ->
   failed rc /\ is_ready (w_bits wc) = false.
 Proof. apply cancel_fails. Qed.
 
@@ -265,3 +265,17 @@ Lemma unfinished_err_not_ready cfg pl bits clear tls calls r w :
   interp pl (the_session cfg clear tls) (init_world bits clear tls calls) = (r, w) ->
   r <> ROk tt -> is_ready (w_bits w) = false.
 Proof. apply session_err_nr. Qed.
+
+(* ------------------------------------------------------------------ source facts (gen/C04Facts.v) *)
+
+(* Read from session.go by the translator on every run: setDeadline starts its watcher on
+   ctx.Done() whatever the shape of the context (so [watched] is true for every plan and the
+   cancellation theorems, stated for every shape, are about the code), and negotiateSession
+   never replaces the error of a step (so the error class of the plan is rightly ignored by
+   the model). A source edit that changes either breaks this obligation. *)
+Lemma tbl_c04_facts : setdeadline_watcher_unconditional = true /\ negsession_keeps_step_error = true.
+Proof. vm_compute. split; reflexivity. Qed.
+
+Lemma watched_always pl : watched pl = true.
+Proof. unfold watched. destruct (p_ctx_deadline pl); [exact (proj1 tbl_c04_facts) | reflexivity]. Qed.
+
